@@ -92,6 +92,7 @@ func (c *collatorClass_[V]) MakeWithMaximum(maximum int) CollatorLike[V] {
 type collator_[V any] struct {
 	class_   CollatorClassLike[V]
 	depth_   int
+	getters_ int
 	maximum_ int
 }
 
@@ -127,6 +128,20 @@ func (v *collator_[V]) RankValues(first V, second V) Rank {
 
 func (v *collator_[V]) resetDepth() {
 	v.depth_ = 0
+	v.getters_ = 0
+}
+
+func (v *collator_[V]) enterGetters() {
+	// A value that reaches itself through its own getters (an association whose
+	// value is the association itself) must not be followed forever.
+	if v.getters_ == v.maximum_ {
+		panic(fmt.Sprintf("The maximum traversal depth was exceeded: %v", v.getters_))
+	}
+	v.getters_++
+}
+
+func (v *collator_[V]) leaveGetters() {
+	v.getters_--
 }
 
 func (v *collator_[V]) compareArrays(first ref.Value, second ref.Value) bool {
@@ -156,6 +171,8 @@ func (v *collator_[V]) compareArrays(first ref.Value, second ref.Value) bool {
 }
 
 func (v *collator_[V]) compareInterfaces(first ref.Value, second ref.Value) bool {
+	v.enterGetters()
+	defer v.leaveGetters()
 	var typeRef = first.Type() // We know the structures are the same type.
 	var count = typeRef.NumMethod()
 	for index := 0; index < count; index++ {
@@ -461,6 +478,8 @@ func (v *collator_[V]) rankFloats(first, second float64) Rank {
 }
 
 func (v *collator_[V]) rankInterfaces(first ref.Value, second ref.Value) Rank {
+	v.enterGetters()
+	defer v.leaveGetters()
 	var typeRef = first.Type() // We know the structures are the same type.
 	var count = first.NumMethod()
 	for index := 0; index < count; index++ {
